@@ -370,6 +370,69 @@ def random_program(rng, n_e, n_p, n_c, length, alphabet=None, p_insert=0.35, adv
     return prog, circ
 
 
+def random_edits(prog, circ, rng, k, final_rewrite=True):
+    """edit an existing (Program, CircuitDAG) pair through replace_op / remove_op (and at most one closing rewrite), keeping the
+    specification in step; returns the list of edits applied (text)"""
+    applied = []
+    for _ in range(k):
+        live = [o for o in prog.live_ops() if o.obj is not None]
+        if not live:
+            break
+        if rng.random() < 0.7:
+            cand = [o for o in live if o.kind in ONEQ or o.kind == "W"]
+            if not cand:
+                continue
+            o = cand[int(rng.integers(len(cand)))]
+            node = [n for n, d in circ.dag.nodes(data=True) if d["op"] is o.obj]
+            if not node:
+                continue
+            before = o.text()
+            if rng.random() < 0.5:
+                nk, gates = ONEQ[int(rng.integers(len(ONEQ)))], None
+            else:
+                nk, gates = "W", [ONEQ[int(rng.integers(len(ONEQ)))] for _ in range(int(rng.integers(1, 5)))]
+            prog.spec_replace(o.id, nk, gates)
+            o.obj = make_gq_op(o)
+            circ.replace_op(node[0], o.obj)
+            applied.append(f"replace {before} by {o.text()}")
+        else:
+            o = live[int(rng.integers(len(live)))]
+            node = [n for n, d in circ.dag.nodes(data=True) if d["op"] is o.obj]
+            if not node:
+                continue
+            circ.remove_op(node[0])
+            prog.remove(o.id)
+            applied.append("remove " + o.text())
+    if final_rewrite:
+        r = [None, None, "group", "unwrap", "remove_identity"][int(rng.integers(5))]
+        if r == "group":
+            circ.group_one_qubit_gates()
+            prog.spec_group()
+        elif r == "unwrap":
+            circ.unwrap_nodes()
+            prog.spec_unwrap()
+        elif r == "remove_identity":
+            circ.remove_identity()
+            prog.spec_remove_identity()
+        if r:
+            applied.append(r)
+            bind_objects(prog, circ)
+    return applied
+
+
+def bind_objects(prog, circ):
+    """after a rewrite that creates new operations inside graphiq: bind every specification operation to the object sitting at
+    the same position of the same register wire (the structure itself is judged elsewhere; a length mismatch is reported)"""
+    for w, ids in prog.wires.items():
+        if w[0] == "c":
+            continue
+        nodes = [e[1] for e in wire_edges(circ, w[0], w[1])[:-1]]
+        if len(nodes) != len(ids):
+            raise RuntimeError(f"wire {w}: the circuit has {len(nodes)} operations, the specification {len(ids)}")
+        for i, n in zip(ids, nodes):
+            prog.ops[i].obj = circ.dag.nodes[n]["op"]
+
+
 def rebuild(pjson):
     """re-create (Program, CircuitDAG) from Program.to_json() (replay)"""
     from graphiq.circuit.circuit_dag import CircuitDAG
